@@ -115,7 +115,8 @@ def main():
                 "engine": "pbt",
                 "level_claimed": {"category": "exploration", "text": text, "design_ref": "DESIGN.md section 5, %s" % pid},
                 "level_note": note,
-                "technique": "property-based testing (Hypothesis) + exhaustive small-scope enumeration: " + tech,
+                "technique": "property-based testing (Hypothesis) + exhaustive small-scope enumeration: " + tech +
+                             "; thorough tier additionally: coverage-guided fuzzing (atheris/libFuzzer through Hypothesis' fuzz_one_input) of the core clauses with the same oracle",
             })
         else:
             na.append({"property_id": pid, "reason": NOT_YET.get(pid, "check not built yet in this round (planned, see DESIGN.md section 5)")})
@@ -126,7 +127,8 @@ def main():
                   "baseline_off_cmd": "cd /repo && /venv/bin/python -m pytest -ra -q -p no:cacheprovider --timeout=900 --continue-on-collection-errors",
                   "source_commits": [], "add_only": True},
         "engines": [{"name": "pbt", "path": "harness/check.py", "serves_properties": sorted(CLAIMED),
-                     "kind_free_text": "Hypothesis-driven clause engine with independent reference models (ref/), exhaustive small-scope tiers, multi-hash-seed workers, replay files"}],
+                     "kind_free_text": "Hypothesis-driven clause engine with independent reference models (ref/), exhaustive small-scope tiers, multi-hash-seed workers, replay files; "
+                                       "coverage-guided second driver (atheris) for the core clauses in the thorough tier"}],
         "checks": checks,
         "not_applicable": na,
         "notes": "All checks: python harness/check.py <id> --tier quick|thorough; VERIF_SEED honoured; exit 2 = harness problem, never a violation.",
